@@ -52,8 +52,7 @@ impl Stub {
 }
 
 /// Bytes coset puts into the protected slot for palette header `idx` built in memory.
-fn enc_protected(idx: usize) -> Result<Vec<u8>, String> {
-    let h = header_by_idx(idx).map_err(|e| e.0)?;
+fn enc_protected(h: &crate::model::MHeader) -> Result<Vec<u8>, String> {
     let p = coset::ProtectedHeader { original_data: None, header: h.to_coset() };
     match guarded(|| p.cbor_bstr()) {
         Ok(Ok(coset::cbor::value::Value::Bytes(b))) => Ok(b),
@@ -85,7 +84,7 @@ fn a_payload(rng: &mut Rng) -> Arg {
     Arg::B(p[rng.weighted(&[8, 8, 14, 12, 6, 6, 3, 3, 2, 1, 1])].clone())
 }
 fn a_hdr(rng: &mut Rng) -> Arg {
-    Arg::I(pick_header_idx(rng) as i128)
+    gen_header_arg(rng)
 }
 fn a_flag(rng: &mut Rng, num: u32, den: u32) -> Arg {
     Arg::I(rng.chance(num, den) as i128)
@@ -196,7 +195,7 @@ struct Sender {
     tokens: Vec<(Vec<u8>, usize)>,
     /// ops whose injected creator failure has already been consumed (retry)
     failed: Vec<usize>,
-    prot: usize,
+    prot: crate::model::MHeader,
     payload: Option<Vec<u8>>,
     st_fail_fired: u64,
 }
@@ -220,11 +219,11 @@ fn v5(msg: String) -> SendErr {
 
 impl Sender {
     fn new(failed: Vec<usize>) -> Sender {
-        Sender { stub: RefCell::new(Stub::default()), obs: vec![], tokens: vec![], failed, prot: 0, payload: None, st_fail_fired: 0 }
+        Sender { stub: RefCell::new(Stub::default()), obs: vec![], tokens: vec![], failed, prot: crate::model::MHeader::default(), payload: None, st_fail_fired: 0 }
     }
 
-    fn enc(&self, idx: usize) -> Result<Vec<u8>, SendErr> {
-        enc_protected(idx).map_err(|e| v5(format!("protected header palette entry {}: {}", idx, e)))
+    fn enc(&self, h: &crate::model::MHeader) -> Result<Vec<u8>, SendErr> {
+        enc_protected(h).map_err(|e| v5(format!("protected header {:?}: {}", h, e)))
     }
 
     /// Run one creator call through coset.  `call` receives the stub closure pieces and returns
@@ -333,28 +332,28 @@ fn norm(p: &Option<Vec<u8>>) -> Option<Vec<u8>> {
 
 /// Build a nested recipient with its own small builder history.
 fn build_rcpt(s: &mut Sender, idx: usize, step: &Step, at: usize) -> Result<coset::CoseRecipient, SendErr> {
-    let hp = step.usize(at)?;
-    let hu = step.usize(at + 1)?;
+    let hp = header_from_arg(step, at)?;
+    let hu = header_from_arg(step, at + 1)?;
     let cn = step.sym(at + 2)?.to_string();
     let pt = step.bytes(at + 3)?.to_vec();
     let aad = step.bytes(at + 4)?.to_vec();
     let fallible = step.int(at + 5)? == 1;
     let inner = step.int(at + 6)? == 1;
-    let hin = step.usize(at + 7)?;
+    let hin = header_from_arg(step, at + 7)?;
     let ctx = ctx_from_name(&cn)?;
     let mut b = coset::CoseRecipientBuilder::new()
-        .protected(header_by_idx(hp)?.to_coset())
-        .unprotected(header_by_idx(hu)?.to_coset());
+        .protected(hp.to_coset())
+        .unprotected(hu.to_coset());
     if inner {
         // second nesting level: built first, with its own create event
-        let tuple = Tuple { ctx: "RecRecipient".into(), body: s.enc(hin)?, sign: None, aad: b"inner-aad".to_vec(), payload: None };
-        let ib = coset::CoseRecipientBuilder::new().protected(header_by_idx(hin)?.to_coset());
+        let tuple = Tuple { ctx: "RecRecipient".into(), body: s.enc(&hin)?, sign: None, aad: b"inner-aad".to_vec(), payload: None };
+        let ib = coset::CoseRecipientBuilder::new().protected(hin.to_coset());
         let ib = s.create(idx, step, tuple, false, false, Some(b"inner-pt"), move |stub, tok, _| {
             Ok(ib.create_ciphertext(coset::EncryptionContext::RecRecipient, b"inner-pt", b"inner-aad", |p, a| cipher(stub, tok, false)(p, a).unwrap()))
         })?;
         b = b.add_recipient(ib.build());
     }
-    let tuple = Tuple { ctx: cn.clone(), body: s.enc(hp)?, sign: None, aad: aad.clone(), payload: None };
+    let tuple = Tuple { ctx: cn.clone(), body: s.enc(&hp)?, sign: None, aad: aad.clone(), payload: None };
     let pt2 = pt.clone();
     let b = s.create(idx, step, tuple, fallible, false, Some(&pt), move |stub, tok, _| {
         if fallible {
@@ -380,13 +379,13 @@ macro_rules! common_ops {
     ($s:ident, $b:ident, $step:ident) => {
         match $step.name.as_str() {
             "protected" => {
-                let i = $step.usize(0)?;
-                $s.prot = i;
-                $b = $b.protected(header_by_idx(i)?.to_coset());
+                let h = header_from_arg($step, 0)?;
+                $b = $b.protected(h.to_coset());
+                $s.prot = h;
                 true
             }
             "unprotected" => {
-                $b = $b.unprotected(header_by_idx($step.usize(0)?)?.to_coset());
+                $b = $b.unprotected(header_from_arg($step, 0)?.to_coset());
                 true
             }
             _ => false,
@@ -420,7 +419,7 @@ fn send(kind: &str, ops: &[&Step], s: &mut Sender) -> Result<Built, SendErr> {
                         }
                         let tuple = Tuple {
                             ctx: "Signature1".into(),
-                            body: s.enc(s.prot)?,
+                            body: s.enc(&s.prot.clone())?,
                             sign: None,
                             aad: aad.clone(),
                             payload: if detached { dp.clone() } else { norm(&s.payload) },
@@ -453,7 +452,7 @@ fn send(kind: &str, ops: &[&Step], s: &mut Sender) -> Result<Built, SendErr> {
                     "add_signature" => b = b.add_signature(sig_from_args(step, 0)?.to_coset()),
                     "add_created" | "add_detached" => {
                         let sig = sig_from_args(step, 0)?;
-                        let hp = step.usize(0)?;
+                        let hp = header_from_arg(step, 0)?;
                         let aad = step.bytes(3)?.to_vec();
                         let fallible = step.int(4)? == 1;
                         let fail = step.int(5)? == 1;
@@ -464,8 +463,8 @@ fn send(kind: &str, ops: &[&Step], s: &mut Sender) -> Result<Built, SendErr> {
                         }
                         let tuple = Tuple {
                             ctx: "Signature".into(),
-                            body: s.enc(s.prot)?,
-                            sign: Some(s.enc(hp)?),
+                            body: s.enc(&s.prot.clone())?,
+                            sign: Some(s.enc(&hp)?),
                             aad: aad.clone(),
                             payload: if detached { dp.clone() } else { norm(&s.payload) },
                         };
@@ -507,7 +506,7 @@ fn send(kind: &str, ops: &[&Step], s: &mut Sender) -> Result<Built, SendErr> {
                         if s.payload.is_none() {
                             return Err(HarnessError("generated history violates the payload precondition".into()).into());
                         }
-                        let tuple = Tuple { ctx: "MAC".into(), body: s.enc(s.prot)?, sign: None, aad: aad.clone(), payload: s.payload.clone() };
+                        let tuple = Tuple { ctx: "MAC".into(), body: s.enc(&s.prot.clone())?, sign: None, aad: aad.clone(), payload: s.payload.clone() };
                         let bb = b;
                         b = s.create(idx, step, tuple, fallible, fail, None, move |stub, tok, f| {
                             if fallible {
@@ -542,7 +541,7 @@ fn send(kind: &str, ops: &[&Step], s: &mut Sender) -> Result<Built, SendErr> {
                         if s.payload.is_none() {
                             return Err(HarnessError("generated history violates the payload precondition".into()).into());
                         }
-                        let tuple = Tuple { ctx: "MAC0".into(), body: s.enc(s.prot)?, sign: None, aad: aad.clone(), payload: s.payload.clone() };
+                        let tuple = Tuple { ctx: "MAC0".into(), body: s.enc(&s.prot.clone())?, sign: None, aad: aad.clone(), payload: s.payload.clone() };
                         let bb = b;
                         b = s.create(idx, step, tuple, fallible, fail, None, move |stub, tok, f| {
                             if fallible {
@@ -574,7 +573,7 @@ fn send(kind: &str, ops: &[&Step], s: &mut Sender) -> Result<Built, SendErr> {
                         let fallible = step.int(1)? == 1;
                         let fail = step.int(2)? == 1;
                         let pt = step.bytes(3)?.to_vec();
-                        let tuple = Tuple { ctx: "Encrypt".into(), body: s.enc(s.prot)?, sign: None, aad: aad.clone(), payload: None };
+                        let tuple = Tuple { ctx: "Encrypt".into(), body: s.enc(&s.prot.clone())?, sign: None, aad: aad.clone(), payload: None };
                         let bb = b;
                         let pt2 = pt.clone();
                         b = s.create(idx, step, tuple, fallible, fail, Some(&pt), move |stub, tok, f| {
@@ -603,7 +602,7 @@ fn send(kind: &str, ops: &[&Step], s: &mut Sender) -> Result<Built, SendErr> {
                         let fallible = step.int(1)? == 1;
                         let fail = step.int(2)? == 1;
                         let pt = step.bytes(3)?.to_vec();
-                        let tuple = Tuple { ctx: "Encrypt0".into(), body: s.enc(s.prot)?, sign: None, aad: aad.clone(), payload: None };
+                        let tuple = Tuple { ctx: "Encrypt0".into(), body: s.enc(&s.prot.clone())?, sign: None, aad: aad.clone(), payload: None };
                         let bb = b;
                         let pt2 = pt.clone();
                         b = s.create(idx, step, tuple, fallible, fail, Some(&pt), move |stub, tok, f| {
@@ -638,7 +637,7 @@ fn send(kind: &str, ops: &[&Step], s: &mut Sender) -> Result<Built, SendErr> {
                         let pt = step.bytes(3)?.to_vec();
                         let cn = step.sym(4)?.to_string();
                         let ctx = ctx_from_name(&cn)?;
-                        let tuple = Tuple { ctx: cn, body: s.enc(s.prot)?, sign: None, aad: aad.clone(), payload: None };
+                        let tuple = Tuple { ctx: cn, body: s.enc(&s.prot.clone())?, sign: None, aad: aad.clone(), payload: None };
                         let bb = b;
                         let pt2 = pt.clone();
                         b = s.create(idx, step, tuple, fallible, fail, Some(&pt), move |stub, tok, f| {
@@ -1074,23 +1073,23 @@ impl Engine for C06 {
             }
         }
         // palette headers used in this run must not be conflated by the encoder (I2 <=)
-        let mut used: Vec<usize> = vec![0];
+        let mut used: Vec<crate::model::MHeader> = vec![crate::model::MHeader::default()];
         for o in &ops {
             match o.name.as_str() {
-                "protected" => used.push(o.usize(0)?),
-                "add_signature" | "add_created" | "add_detached" | "add_recipient" => {
-                    used.push(o.usize(0)?);
+                "protected" | "add_signature" | "add_created" | "add_detached" | "add_recipient" => {
+                    let h = header_from_arg(o, 0)?;
+                    if !used.contains(&h) {
+                        used.push(h);
+                    }
                 }
                 _ => {}
             }
         }
-        used.sort();
-        used.dedup();
         let mut encs = Vec::new();
-        for i in &used {
-            match enc_protected(*i) {
-                Ok(b) => encs.push((*i, b)),
-                Err(e) => return Ok(Some(Violation::new("C06.I5", format!("protected header palette entry {}: {}", i, e)))),
+        for h in &used {
+            match enc_protected(h) {
+                Ok(b) => encs.push((h, b)),
+                Err(e) => return Ok(Some(Violation::new("C06.I5", format!("protected header {:?}: {}", h, e)))),
             }
         }
         for a in 0..encs.len() {
@@ -1098,7 +1097,7 @@ impl Engine for C06 {
                 if encs[a].1 == encs[b].1 {
                     return Ok(Some(Violation::new(
                         "C06.I2<=",
-                        format!("protected headers #{} and #{} differ in content but coset emits the same protected bytes {} for both", encs[a].0, encs[b].0, hex_short(&encs[a].1)),
+                        format!("protected headers {:?} and {:?} differ in content but coset emits the same protected bytes {} for both", encs[a].0, encs[b].0, hex_short(&encs[a].1)),
                     )));
                 }
             }
